@@ -743,6 +743,42 @@ fn repeat_line(line: &[u8], n: usize, vary: bool) -> Vec<u8> {
 	b
 }
 
+/// The strings the contents of every Utf8 constant of a class seed are replaced with (fault set (g)): descriptor and
+/// class-name shapes at the boundaries of their grammars, member names, signatures, the names of the attributes (so that
+/// the body of one attribute is read as another), and modified-UTF-8 byte sequences legal and illegal.
+pub fn class_strings() -> Vec<Vec<u8>> {
+	let l = |s: &str| s.as_bytes().to_vec();
+	let rep = |c: u8, n: usize, tail: &str| {
+		let mut v = vec![c; n];
+		v.extend_from_slice(tail.as_bytes());
+		v
+	};
+	let mut v = vec![
+		l(""), l("I"), l("J"), l("V"), l("["), l("[[I"), rep(b'[', 255, "I"), rep(b'[', 256, "I"), l("L;"), l("La;"), l("La"), l("L"), l("[La;"), l("[V"),
+		l("("), l(")"), l("()"), l("()V"), l("(I)V"), l("(J)J"), l("()La;"), l("(La;)[[D"), l("(V)V"), l("(()V"), l("()VV"),
+		l(&format!("({})V", "J".repeat(128))), l(&format!("({})V", "I".repeat(255))), l(&format!("({})V", "I".repeat(256))), l(&format!("({}J)V", "I".repeat(253))),
+		l("<init>"), l("<clinit>"), l("<x>"), l("<"), l(">"), l("a"), l("a/b"), l("a//b"), l("/a"), l("a/"), l("/"), l("a.b"), l("a;b"), l("a[b"), l("[a"), l("a$b"), l("$"), l("a$"), l("$a"), l("a$$b"), l("1"), l("a$1"), l("a$1b"),
+		l("java/lang/Object"), l("java/lang/Enum"), l("java/lang/Record"), l("module-info"), l("package-info"),
+		l("\u{e9}"), l("\u{20ac}"), l("a\u{e9}"), l("a/\u{e9}$\u{20ac}"), l("L\u{e9};"), l("(L\u{20ac};)V"),
+		// raw four-byte UTF-8 and a raw NUL are not modified UTF-8; C0 80 is NUL; surrogates alone and as a pair; cut sequences
+		l("\u{1F600}"), vec![0], vec![0xc0, 0x80], vec![b'a', 0xc0, 0x80, b'b'], vec![0xed, 0xa0, 0x80], vec![0xed, 0xb0, 0x80], vec![0xed, 0xa0, 0xbd, 0xed, 0xb8, 0x80], vec![0xed, 0xb8, 0x80, 0xed, 0xa0, 0xbd],
+		vec![0xc3], vec![b'a', 0xc3], vec![0xe2, 0x82], vec![0x80], vec![0xff], vec![0xc0, 0xaf], vec![0xe0, 0x80, 0xaf], vec![0xed, 0xa0], vec![0xf8, 0x88, 0x80, 0x80, 0x80],
+		l("<T:Ljava/lang/Object;>Ljava/lang/Object;"), l("TT;"), l("Ljava/util/List<"), l("Ljava/util/List<*>;"), l("<T:"), l("(TT;)V^TE;"),
+		vec![b'a'; 65535], rep(b'L', 1, &format!("{};", "a".repeat(65533))), rep(b'[', 65535, ""),
+	];
+	for name in ["Code", "StackMapTable", "StackMap", "LineNumberTable", "LocalVariableTable", "LocalVariableTypeTable", "BootstrapMethods", "Signature", "Record", "ConstantValue", "Deprecated", "Synthetic", "RuntimeVisibleAnnotations", "RuntimeInvisibleAnnotations", "RuntimeVisibleTypeAnnotations", "RuntimeInvisibleTypeAnnotations", "RuntimeVisibleParameterAnnotations", "RuntimeInvisibleParameterAnnotations", "AnnotationDefault", "MethodParameters", "Exceptions", "InnerClasses", "EnclosingMethod", "SourceFile", "SourceDebugExtension", "Module", "ModulePackages", "ModuleMainClass", "NestHost", "NestMembers", "PermittedSubclasses", "x.Unknown"] {
+		v.push(l(name));
+	}
+	v
+}
+
+/// the symbols of the "every short string in every Utf8 constant" space (byte sequences, not all of them characters)
+pub fn class_char_alphabet() -> Vec<Vec<u8>> {
+	let mut v: Vec<Vec<u8>> = ["a", "/", "$", ";", "[", "L", "(", ")", "<", ">", ".", "I", "J", "V", "1", "\u{e9}", "\u{20ac}"].iter().map(|s| s.as_bytes().to_vec()).collect();
+	v.extend([vec![0xc0u8, 0x80], vec![0xed, 0xa0, 0x80], vec![0xc3], vec![0x80]]);
+	v
+}
+
 pub struct Adversary {
 	pub name: String,
 	pub parser: P,
